@@ -289,6 +289,21 @@ _BINARY = {
 _BINARY.update(_CMP)
 
 
+def _probe_ufunc_dtype(ufunc, dt):
+    """conformance with the installed numpy: a ufunc call with an explicit dtype= that numpy rejects for floating-point operands
+    (e.g. np.greater_equal(a, b, dtype=np.float32): no matching loop) raises the same TypeError on symbolic arrays"""
+    errs = []
+    for fdt in (np.float32, np.float64):
+        try:
+            ufunc(*([np.zeros(1, dtype=fdt)] * ufunc.nin), dtype=dt)
+            return
+        except TypeError as e:
+            errs.append(e)
+        except Exception:
+            return
+    raise TypeError(str(errs[0]))
+
+
 class SymArray(np.ndarray):
     __array_priority__ = 100.0
 
@@ -299,8 +314,10 @@ class SymArray(np.ndarray):
 
     # -- ufunc interception ----------------------------------------------------------------
     def __array_ufunc__(self, ufunc, method, *inputs, out=None, **kwargs):
-        kwargs.pop("dtype", None)
+        dt = kwargs.pop("dtype", None)
         kwargs.pop("casting", None)
+        if dt is not None and method == "__call__":
+            _probe_ufunc_dtype(ufunc, dt)
         plain = [_obj(x) for x in inputs]
         outs = None
         if out is not None:
